@@ -7,7 +7,9 @@ from harness import core
 
 
 def line(op):
-    return f"{op['op']} n={op['n']} maxbs={op['maxbs']} dev={op['dev']}"
+    # `prepare_seq` (several prepare_batches calls on ONE BatchProcessor with inputs of different dtypes) is answered by the model's `prepare`
+    name = "prepare" if op["op"] == "prepare_seq" else op["op"]
+    return f"{name} n={op['n']} maxbs={op['maxbs']} dev={op['dev']}"
 
 
 def oracle(op, resp: str):
@@ -23,7 +25,9 @@ def oracle(op, resp: str):
                 return f"batch_size {bsz} outside [1,{maxbs}]"
             if nb < 1 or npad < 0 or dv * nb * bsz != n + npad:
                 return f"slots {dv}*{nb}*{bsz} != n {n} + padding {npad}"
-        elif op["op"] == "prepare":
+        elif op["op"] == "prepare_seq" and resp.startswith("lossy"):
+            return "a later prepare_batches call on the same BatchProcessor does not lay out its own input exactly (" + resp + ")"
+        elif op["op"] in ("prepare", "prepare_seq"):
             devs = [[b.split(",") for b in d.split(";")] for d in resp.split("|")]
             flat = [x for d in devs for b in d for x in b]
             if flat[:n] != [str(i) for i in range(n)] or any(x != "_" for x in flat[n:]):
@@ -70,6 +74,11 @@ def run(tier: str, seed: int) -> core.Result:
     for (n, m, dev) in sorted(pick):
         ops.append({"op": "prepare", "n": n, "maxbs": m, "dev": dev})
         ops.append({"op": "unbatch", "n": n, "maxbs": m, "dev": dev})
+    # the same processor used for several arrays in turn (different dtypes, state dimensions 1..2): every call must lay out its own input
+    seq = [p for p in sorted(pick) if p[0] <= 200]
+    rng.shuffle(seq)
+    for (n, m, dev) in seq[: 150 if tier == "quick" else 1500]:
+        ops.append({"op": "prepare_seq", "n": n, "maxbs": m, "dev": dev, "order": rng.choice(["i32,f32,f64,i32", "f32,i32,f64", "f64,i32,f32,i32"])})
     # split the impl work over processes
     W = 12
     chunks = [ops[i::W] for i in range(W)]
@@ -77,12 +86,12 @@ def run(tier: str, seed: int) -> core.Result:
     impl = {}
     for c, o in zip(chunks, outs):
         for op, r in zip(c, o):
-            impl[line(op)] = r["resp"]
+            impl[op["op"] + "|" + line(op)] = r["resp"]
     lines = [line(op) for op in ops]
     model = core.run_driver(lines)
     for op, l, m in zip(ops, lines, model):
         res.evaluations += 1
-        i = impl[l]
+        i = impl[op["op"] + "|" + l]
         key = (op["n"], op["maxbs"], op["dev"])
         if op["op"] == "batch":
             d = core.parse_resp(m)
